@@ -45,8 +45,10 @@ PlaneShape(P) == IF P.mask.k = "2d" THEN <<Len(P.mask.m), Len(P.mask.m[1])>>
                  ELSE None
 \* segment masks: the documented rule "if no mask is given it is created from the amplitude"
 NSeg(P) == IF P.mask.k = "3d" THEN Len(P.mask.m) ELSE 1
+\* (a sample that several segment masks contain - shared edge samples of closely packed segments - belongs to the FIRST of them:
+\*  the plane transmits every sample once, whatever the way its aperture is cut into segments)
 InSeg(P, k, i, j) == IF P.mask.k = "2d" THEN P.mask.m[i][j] # 0
-                     ELSE IF P.mask.k = "3d" THEN P.mask.m[k][i][j] # 0
+                     ELSE IF P.mask.k = "3d" THEN P.mask.m[k][i][j] # 0 /\ \A k2 \in 1..(k - 1) : P.mask.m[k2][i][j] = 0
                      ELSE IF IsArr(P.amp) THEN Len(P.amp.v[i][j]) > 0
                      ELSE TRUE
 AmpAt(P, i, j) == IF IsArr(P.amp) THEN PixVal(P.amp.v[i][j]) ELSE PixVal(P.amp.v)
